@@ -500,7 +500,7 @@ func TestVerif_C02_crash(t *testing.T) {
 		}
 		return
 	}
-	verifkit.RapidSetup(160, 3000)
+	verifkit.RapidSetup(160, 800)
 	totalImages, totalTorn, totalSecond, totalPost := 0, 0, 0, 0
 	points := map[string]int{}
 	allExhaustive := true
